@@ -523,6 +523,12 @@ def run_history(case):
             here += invariants(c, "ip")
         if st_cp == "ok":
             here += invariants(new, "cp")
+        roundoff = bool(case.get("roundoff"))
+        if roundoff:
+            # rounding regime (far-away positions): which steps survive is decided by rounding, so only the
+            # clauses that hold whatever the outcome are evaluated: untouched on refusal, both forms agree,
+            # no degenerate region, shapes
+            here = [c_ for c_ in here if c_ not in ("invariant-subregion-lattice", "invariant-cell-times-n")]
         # expectation from the documented maps
         nf = st.get("nonfinite", False)
         # a step with a non-finite (or overflowing) argument must be refused like any malformed step
@@ -530,6 +536,8 @@ def run_history(case):
         rot_now = rot_seen or st["op"] == "rotate"
         sc = mag(sim, st)
         for form, ok, o in (("ip", st_ip == "ok", obs_ip), ("cp", st_cp == "ok", obs_cp if not via_mesh else obs_ip)):
+            if roundoff:
+                continue
             if nf:
                 if ok:
                     here.append("nonfinite-argument-accepted")
@@ -542,14 +550,14 @@ def run_history(case):
                 sc2 = max([sc] + [abs(x) for x in exp["reg"]["lo"] + exp["reg"]["hi"]])
                 if not matches(o, exp, not rot_now, sc2):
                     here.append("affine-map")
-        if via_mesh and st_cp == "ok" and exp is not None and not nf:
+        if via_mesh and st_cp == "ok" and exp is not None and not nf and not roundoff:
             sc2 = max([sc] + [abs(x) for x in exp["reg"]["lo"] + exp["reg"]["hi"]])
             if not matches(new_root_obs, dict(exp, type="mesh"), not rot_now, sc2):
                 here.append("affine-map")
         oracle += here
         trace.append(dict(step=idx, ip=st_ip, copy=st_cp, after_inplace=obs_ip, after_copy=new_root_obs,
                           clauses=sorted(set(here))))
-        if st.get("overflow") or any(o_ is not None and has_nan(o_) for o_ in (obs_ip, obs_cp)):
+        if roundoff or st.get("overflow") or any(o_ is not None and has_nan(o_) for o_ in (obs_ip, obs_cp)):
             nonfinite = True      # outside the Q model: the history stays oracle-only
         if not nonfinite:
             coq_steps.append(f"({g.b(st['ip'])}, {step_coq(st)}, {opt_ostate_coq(obs_ip)}, {opt_ostate_coq(obs_cp)})")
@@ -962,6 +970,53 @@ def gen_nf_step(rng, s):
     return st
 
 
+def directed_far():
+    """fixed part of every run, rounding regime (oracle only): steps that carry a region / a mesh with several
+    subregions / a field on such a mesh to far-away positions where edges or one-cell subregions collapse.
+    Whatever rounding decides, the in-place form must refuse exactly when the copying form refuses, a refused
+    step must leave every observable untouched, and no accepted result may be degenerate"""
+    line_subs = [["a", [[S(0), S(0)], [S(1), S(1)]]], ["b", [[S(4095), S(0)], [S(4096), S(1)]]],
+                 ["c", [[S(100), S(0)], [S(200), S(1)]]]]
+    box_subs = [["a", [[S(0), S(0), S(0)], [S(1), S(1), S(1)]]], ["core", [[S(16), S(0), S(0)], [S(64), S(2), S(1)]]]]
+    roots = [
+        dict(type="region", p1=[S(0), S(0), S(0)], p2=[S(1), S(1), S(1)], dims=["x", "y", "z"], units=["m"] * 3),
+        dict(type="region", p1=[S(0), S(0)], p2=[S(4096), S(1)], dims=["x", "y"], units=["m", "s"]),
+        dict(type="mesh", p1=[S(0), S(0)], p2=[S(4096), S(1)], dims=["x", "y"], units=["m", "m"],
+             n=[4096, 1], bc="", subs=line_subs),
+        dict(type="mesh", p1=[S(0), S(0), S(0)], p2=[S(64), S(2), S(1)], dims=["x", "y", "z"],
+             units=["m", "nm", "s"], n=[64, 2, 1], bc="", subs=box_subs),
+        dict(_froot("xy", [4096, 1], [4096, 1], 1, subs=line_subs)),
+        dict(_froot("xyz", [64, 2, 1], [64, 2, 1], 3, subs=box_subs)),
+    ]
+    cases = []
+    for root in roots:
+        nd = len(root["p1"])
+        d = root["dims"]
+
+        def vec(x, pos=0):
+            v = [F(0)] * nd
+            v[pos] = F(x)
+            return seq(v, "tuple")
+        steps = []
+        for x in (2.0 ** 60, 2.0 ** 57, -2.0 ** 62, 1e20, 2.0 ** 53):
+            steps.append(dict(op="translate", v=vec(x), cls="far-translate"))
+        steps.append(dict(op="translate", v=vec(2.0 ** 60, nd - 1), cls="far-translate"))
+        for x in (2.0 ** 60, 1e20, -2.0 ** 56):
+            steps.append(dict(op="scale", f=dict(t="scalar", v=S(2), int=True), ref=vec(x), cls="far-scale"))
+            steps.append(dict(op="scale", f=dict(t="scalar", v=S(-1), int=True), ref=vec(x), cls="far-scale"))
+            for k in (1, 2):
+                steps.append(dict(op="rotate", ax1=d[0], ax2=d[1], k=dict(t="int", v=k), ref=vec(x),
+                                  cls="far-rotate"))
+        steps.append(dict(op="rotate", ax1=d[1], ax2=d[0], k=dict(t="int", v=3), ref=vec(2.0 ** 58, 1),
+                          cls="far-rotate"))
+        back = dict(op="translate", v=seq([F(1)] * nd), cls="far-frame")
+        for i, st in enumerate(steps):
+            ip = i % 2 == 0
+            cases.append(dict(kind="history", root=root, tame=False, roundoff=True, directed="far",
+                              steps=[dict(st, ip=ip), dict(back, ip=not ip), dict(st, ip=not ip)]))
+    return cases
+
+
 def directed_nonfinite():
     """fixed part of every run: NaN / +inf / -inf (Python float, numpy float32 / float64) in every argument
     position of every operation, on a region, a 1-d region, a mesh with subregions and two fields, in both
@@ -1102,6 +1157,16 @@ def state_ok(s, tame, rot_seen):
     return True
 
 
+def tame_k(st, tame):
+    """np.uint8(k % 256) turns a negative k into a count near 250, and the implementation evaluates
+    cos/sin(k*pi/2) with an error that grows with k: on meshes with subregions (tolerance tests) such counts
+    are kept out of the exact stream (reported separately)"""
+    if tame and st.get("op") == "rotate" and st["k"].get("t") == "int" and (st["k"].get("rep") or "").startswith("u") \
+            and st["k"]["v"] < 0:
+        st["k"] = dict(st["k"], rep=None)
+    return st
+
+
 def gen_history(rng, typ, tier, length, p_bad, integer=False):
     root = gen_root(rng, typ, tier, integer)
     s = root_sim(root)
@@ -1112,6 +1177,7 @@ def gen_history(rng, typ, tier, length, p_bad, integer=False):
         if typ == "field" and rng.random() < 0.2:
             st = unmapped_rot_step(rng, s)
             if st is not None:
+                st = tame_k(st, tame)
                 st["ip"] = rng.random() < 0.7
                 steps.append(st)
                 continue
@@ -1122,6 +1188,7 @@ def gen_history(rng, typ, tier, length, p_bad, integer=False):
             continue
         for attempt_ in range(12):
             st = gen_int_step(rng, s) if (integer and rng.random() < 0.85) else gen_valid_step(rng, s, tame)
+            st = tame_k(st, tame)
             nxt = sim_state(s, st)
             if nxt is not None and state_ok(nxt, tame, rot_seen or st["op"] == "rotate"):
                 break
@@ -1296,9 +1363,7 @@ def generate(rng, tier):
     # known-finding streams, small and rare
     cases.append(dict(kind="aliased", which="two-fields-one-mesh"))
     cases.append(dict(kind="aliased", which="mesh-region-direct"))
-    cases.append(dict(kind="mesh-partial-far"))
-    for w in ("translate", "rotate", "scale"):
-        cases.append(dict(kind="far-collapse", which=w))
+    cases += directed_far()
     return cases
 
 
@@ -1325,10 +1390,6 @@ def run_case(case):
     kind = case["kind"]
     if kind == "aliased":
         return run_aliased(case)
-    if kind == "mesh-partial-far":
-        return run_partial_far(case)
-    if kind == "far-collapse":
-        return run_far_collapse(case)
     tags = []
     r = run_history(case)
     if r["oracle"] and kind == "history" and len(case["steps"]) > 1:
